@@ -274,6 +274,13 @@ static void thdm_history(vh::Rng& r) {
    guarded("thdm_free(NULL)", [&] { gm2calc_thdm_free(nullptr); });
    guarded("int_to_c_yukawa_type", [&] { (void)int_to_c_yukawa_type(1 + r.range(6)); });
    guarded("gm2calc_error_str", [&] { for (int k = 0; k < 4; ++k) { const char* s = gm2calc_error_str(static_cast<gm2calc_error>(k)); if (!s) failure("C17:error_str:null", "gm2calc_error_str returned NULL"); } });
+   // a C caller can pass any int as the enum: called through an int-typed pointer to the same function (a cast of the value would be the harness's own
+   // undefined behaviour in C++); every value gives a readable, non-empty string
+   guarded("gm2calc_error_str(out-of-range)", [&] {
+      const auto f = reinterpret_cast<const char* (*)(int)>(&gm2calc_error_str);
+      static const int codes[] = {4, 5, 6, 7, 8, 100, -1, -2, 255, 256, 65536, 2147483647, -2147483647 - 1};
+      for (int k : codes) { const char* s = f(k); const bool ok = s != nullptr && std::strlen(s) > 0 && std::strlen(s) < 200;
+         out->cell("error_str|out-of-range-code", ok ? 0 : 1); if (!ok) failure("C17:error_str:out-of-range", "gm2calc_error_str(" + std::to_string(k) + ") returns " + (s ? "an empty or unterminated string" : "NULL")); } });
 }
 
 int main(int argc, char** argv) {
